@@ -69,8 +69,32 @@ func (e *retryEngine) Gen(rng *rand.Rand, tier string, n int, emit func(string))
 	emit("t0a0c1 P - start dial+:10 ack+:0 pub:1:1 disc pub:2:1")
 	emit("t0a0c0 P - start dial+:10 ack+:0 pub:1:1 close pub:2:1 dial+:20 disc ack- dial+:30 ack+:1")   // Disconnect while waiting for CONNACK, refused
 	emit("t0a0c0 P - start dial+:10 ack+:0 pub:1:1 close pub:2:1 dial+:20 disc ack+:1 dial+:30 ack+:1") // … accepted: the queued DISCONNECT goes out on the new connection
-	emit("t0a0c0 P - start dial+:10 ack+:0 close disc dial+:30 ack+:1")                                 // Disconnect while waiting to redial
+	emit("t0a0c0 P - start dial+:10 ack+:0 close disc dial+:30 ack+:1")                                 // Disconnect while the redial is in flight; it then succeeds and is accepted
+	emit("t0a0c0 P - start dial+:10 ack+:0 pub:1:1 close disc dial+:30 ack-")                           // … and is refused (the task goroutine has already exited)
+	emit("t0a0c1 P - start dial+:10 ack+:0 pub:1:1 close disc dial+:30 ack0")                           // … and is never answered (connect timeout)
+	emit("t0a0c0 P - start dial+:10 ack+:0 pub:1:1 close disc dial-")                                   // … and fails
 	emit("t0a0c0 P - start disc dial+:10 ack+:1")                                                       // Disconnect while the first dial is in progress
+	emit("t0a0c0 P - start disc dial+:10 ack-")
+	emit("t0a0c0 P - pub:1:1 start disc dial-")
+	// cancellation of the context given to Connect, before / after the first connection succeeded; protocol error
+	emit("t0a0c0 P - pub:1:1 start cancel dial+:10 ack+:0")                  // while the first dial is in flight
+	emit("t0a0c0 P - pub:1:1 start dial+:10 cancel ack+:0 dial+:20 ack+:0")   // while waiting for the first CONNACK
+	emit("t0a0c0 P - start dial- cancel dial+:10 ack+:0")                     // during the second dial
+	emit("t0a0c0 P - start dial+:10 ack- cancel dial+:20 ack+:0")
+	emit("t0a0c0w1 P - start dial- cancel wait dial+:10 ack+:0")              // while waiting to redial
+	emit("t0a0c0w1 P - start dial+:10 ack- pub:1:1 cancel wait dial+:20")
+	emit("t0a0c0 P - cancel start dial+:10 ack+:0")                           // already cancelled when Connect is called
+	emit("t0a0c0 P - start dial+:10 ack+:0 cancel pub:1:1 close dial+:20 ack+:1 pub:2:2") // after the first success: no effect
+	emit("t0a0c0 P - start dial+:10 ack+:0 pub:1:1 bad pub:2:1 dial+:20 ack+:1 bad dial+:30 ack+:1")
+	// long back-off (w1): events land while the loop waits to redial; `wait` = the timer fires
+	emit("t0a0c0w1 P - start dial+:10 ack+:0 pub:1:1 close pub:2:1 disc")                               // Disconnect while waiting to redial: no further dial
+	emit("t0a0c0w1 P - start dial- disc")                                                               // … before any connection was established
+	emit("t0a0c0w1 P - start dial+:10 ack- pub:1:1 disc")                                               // … after a refused CONNACK
+	emit("t0a0c0w1 P - start dial+:10 ack+:0 pub:1:1 close wait disc dial+:20 ack-")                    // Disconnect while dialling, dial succeeds, CONNECT refused
+	emit("t0a0c0w1 P - start dial+:10 ack+:0 pub:1:1 close wait disc dial+:20 ack+:1")
+	emit("t0a0c0w1 P - start dial+:10 ack+:0 pub:1:1 close wait disc dial-")
+	emit("t0a0c0w1 P - start dial+:10 ack+:0 pub:1:1 close wait dial+:20 disc ack-")                    // Disconnect while connecting
+	emit("t0a0c0w1 P la start dial- wait dial- wait dial+:10 ack- wait dial+:20 ack+:0 pub:1:1 wait dial+:30 ack+:1 close wait dial+:40 ack+:1") // back-off doubling, clamp, reset
 	if tier == "thorough" {
 		// all single- and double-fault plans over every position of short histories
 		faults := []string{"ok", "wf", "lr", "la"}
@@ -109,8 +133,47 @@ func (e *retryEngine) Gen(rng *rand.Rand, tier string, n int, emit func(string))
 		}
 	}
 	for i := 0; i < n; i++ {
+		if i%16 == 15 {
+			emit(slowWaitScript(rng, genRetryScript(rng)))
+			continue
+		}
 		emit(genRetryScript(rng))
 	}
+}
+
+// slowWaitScript turns a generated script into one for the long back-off configuration (w1): the timer
+// fires (`wait`) right before every dial result, and Disconnect may land in the back-off wait (before
+// `wait`) or while the dial is in flight (after it). Shortened: every redial costs real time here.
+func slowWaitScript(rng *rand.Rand, line string) string {
+	f := strings.Fields(line)
+	cfg, method, faults, evs := f[0], f[1], f[2], f[3:]
+	var out []string
+	dials, disc := 0, false
+	for _, ev := range evs {
+		isDial := strings.HasPrefix(ev, "dial")
+		if isDial {
+			if dials >= 5 {
+				continue
+			}
+			if dials > 0 {
+				if !disc && rng.Intn(8) == 0 {
+					out = append(out, "disc")
+					disc = true
+				}
+				out = append(out, "wait")
+				if !disc && rng.Intn(8) == 0 {
+					out = append(out, "disc")
+					disc = true
+				}
+			}
+			dials++
+		}
+		if ev == "disc" {
+			disc = true
+		}
+		out = append(out, ev)
+	}
+	return fmt.Sprintf("%sw1 %s %s %s", cfg, method, faults, strings.Join(out, " "))
 }
 
 func genRetryScript(rng *rand.Rand) string {
@@ -183,7 +246,10 @@ func genRetryScript(rng *rand.Rand) string {
 		evs = append(evs, appEv())
 	}
 	evs = append(evs, "start")
-	idStart := []int{10, 200, 65530, 3000, 40000}[rng.Intn(5)]
+	if rng.Intn(25) == 0 {
+		evs = append(evs, "cancel")
+	}
+	idStart := []int{10, 200, 65530, 3000, 40000, 65533, 131066, 131069, 196604, 4294967290}[rng.Intn(10)]
 	steps := 4 + rng.Intn(14)
 	sessKept := rng.Intn(3) != 0
 	for j := 0; j < steps; j++ {
@@ -195,6 +261,9 @@ func genRetryScript(rng *rand.Rand) string {
 			idStart += 100
 		case x < 12:
 			evs = append(evs, "dial-")
+			if rng.Intn(10) == 0 {
+				evs = append(evs, "cancel")
+			}
 		case x < 15:
 			sp := 1
 			if !sessKept && rng.Intn(2) == 0 {
@@ -216,7 +285,14 @@ func genRetryScript(rng *rand.Rand) string {
 				evs = append(evs, "ack-")
 			}
 		case x < 17:
-			evs = append(evs, "close")
+			if rng.Intn(3) == 0 {
+				evs = append(evs, "bad")
+			} else {
+				evs = append(evs, "close")
+			}
+			if rng.Intn(12) == 0 {
+				evs = append(evs, "cancel")
+			}
 		case x < 18:
 			inb++
 			evs = append(evs, fmt.Sprintf("in:%d:%d", inb, rng.Intn(2)))
@@ -272,7 +348,7 @@ func (e *retryEngine) Exec(f []string) Result {
 		}
 	}
 	for tag, pat := range map[string]string{"qos2": ":2 ", "subscribe": "sub:", "unsubscribe": "unsub:", "session-lost": "ack+:0", "connack-refused": "ack-", "connack-never": "ack0",
-		"dial-failure": "dial-", "peer-close": "close", "inbound": "in:", "handle": "handle:", "disconnect": "disc", "before-connect": ""} {
+		"dial-failure": "dial-", "peer-close": "close", "protocol-error": "bad", "context-cancel": "cancel", "timer": "wait", "inbound": "in:", "handle": "handle:", "disconnect": "disc", "before-connect": ""} {
 		if pat != "" && strings.Contains(script+" ", pat) {
 			r.Tags = append(r.Tags, "has:"+tag)
 		}
